@@ -520,6 +520,9 @@ func (g *Graph) LoopDone(loop ast.Stmt) *GNode {
 // inlineCond replaces a condition that is a call of a local predicate closure - `pred := func() bool { return <expr> }`
 // assigned exactly once, called without arguments - by <expr> (and `!pred()` by `!(<expr>)`), so that facts and guards
 // are read off the real comparison. Anything else is returned unchanged.
+// InlineCond is inlineCond for rules that read conditions off the syntax tree instead of off the flow graph.
+func InlineCond(f *Func, cond ast.Expr) ast.Expr { return inlineCond(f, cond) }
+
 func inlineCond(f *Func, cond ast.Expr) ast.Expr {
 	e := unparen(cond)
 	if u, ok := e.(*ast.UnaryExpr); ok && u.Op == token.NOT {
